@@ -29,6 +29,7 @@ type c03Adder struct {
 	Name string `json:"name"`
 	Ctr  string `json:"ctr"`
 	N    int    `json:"n"`
+	Amt  int    `json:"amt"` // amount of each Add, in model units (0 = 1)
 }
 
 type c03Run struct {
@@ -37,6 +38,8 @@ type c03Run struct {
 	Adders   []c03Adder `json:"adders"`
 	Rotators []string   `json:"rotators"`
 	NRot     int        `json:"nRot"` // rotate1 calls per rotator; the clock moves on one span between two calls
+	Unit     int        `json:"unit"` // log2 of the real amount of one model unit (0: amounts are the model's); the in-memory limit 2^33-1 is then maxExtra units
+	CapNew   int        `json:"capNew"` // free record slots of the file the first open finds (-1: a fresh file)
 	Counters []string   `json:"counters"`
 	Warm     []string   `json:"warm"`
 	InitOpen bool       `json:"initOpen"`
@@ -71,6 +74,7 @@ type c03World struct {
 	ctrs    map[string]*Counter
 	byPtr   map[*Counter]string
 	regions []*region
+	setupRegions []*region // mappings made by the setup process before the model's initial state
 	files   []string // count file paths in creation order
 	step    int
 	begun   map[string]int
@@ -125,7 +129,7 @@ func c03Munmap(d *mmap.Data) error {
 }
 
 func (w *c03World) release() {
-	for _, r := range w.regions {
+	for _, r := range append(append([]*region{}, w.setupRegions...), w.regions...) {
 		if r.closed {
 			syscall.Mprotect(r.raw, syscall.PROT_READ|syscall.PROT_WRITE)
 		}
@@ -220,6 +224,13 @@ func (w *c03World) project() rt.M {
 	for _, n := range w.run.Counters {
 		c := w.ctrs[n]
 		st[n] = modelWord(c.state.bits.Raw(), w.run.MaxExtra)
+		if w.run.Unit > 0 {
+			// the in-memory amount in model units, rounded up (2^33-1 is maxExtra units)
+			b := counterStateBits(c.state.bits.Raw())
+			u := uint64(1) << uint(w.run.Unit)
+			ex := int((b.extra() + u - 1) / u)
+			st[n] = modelWord(c.state.bits.Raw(), w.run.MaxExtra)%16 + 16*ex
+		}
 		ptr[n] = w.regionOf(unsafe.Pointer(c.ptr.count))
 		nxt[n] = nameOf(c.next.Raw())
 		cell1[n] = w.modelCell(fdec[0][c.name])
@@ -334,6 +345,41 @@ func c03Setup(t *testing.T, run *c03Run) *c03World {
 		// unlink them (they are never touched again)
 		w.relinkWarm()
 	}
+	if !run.InitOpen {
+		if run.CapNew >= 0 {
+			// the count file exists already (left by an earlier process of the same build) with CapNew free slots
+			tmp := new(file)
+			tmp.buildInfo = w.f.buildInfo
+			tmp.rotate1()
+			if tmp.err != nil || tmp.current.Raw() == nil {
+				t.Fatalf("setup: prefill open failed: %v", tmp.err)
+			}
+			m := tmp.current.Raw()
+			slots := 0
+			lim := uint32(0)
+			for {
+				_, end := rt.V1Place(m.hdrLen, lim, c03NameLen)
+				if end > rt.V1Page {
+					break
+				}
+				slots++
+				lim = end
+			}
+			for i := 0; i < slots-run.CapNew; i++ {
+				c := &Counter{name: c03RealName(fmt.Sprintf("fill%02d", i)), file: tmp}
+				c.Add(1)
+			}
+			tmp.current.Raw().close()
+			// the mappings of the setup process are not part of the model: forget them (they stay reserved until release)
+			w.setupRegions = append(w.setupRegions, w.regions...)
+			w.regions = nil
+		}
+		// counters incremented before the file is open: registered, the amount pending in memory
+		for _, n := range run.Warm {
+			w.ctrs[n].Add(1)
+			w.begun[n] = 1
+		}
+	}
 	if run.Clock2 {
 		w.now = t1.AddDate(0, 0, 7)
 	}
@@ -390,9 +436,13 @@ func c03One(t *testing.T, run *c03Run) {
 	for _, a := range run.Adders {
 		a := a
 		s.Go(a.Name, func() {
+			amt := a.Amt
+			if amt == 0 {
+				amt = 1
+			}
 			for k := 0; k < a.N; k++ {
-				w.begun[a.Ctr]++
-				w.ctrs[a.Ctr].Add(1)
+				w.begun[a.Ctr] += amt
+				w.ctrs[a.Ctr].Add(int64(amt) << uint(run.Unit))
 			}
 		})
 	}
